@@ -1,6 +1,7 @@
 """C11 — PES header decoding (NewPESHeader, packet.PESHeader, pes.AlignedPUSI) for every header shape.
 Logical records are serialised by the Coq Spec serialiser (modelexec op ser.pes, Spec/PesSpec.v) and, independently,
 by ser_py below (the two are compared while generating); the expected getters are computed from the logical record."""
+import sys
 import vlib
 from vlib import Case, hx, unhx, parse_val
 
@@ -189,15 +190,22 @@ def gen(rng, tier):
     out = []
     recs = records(rng, tier)
     sers = vlib.run_model([ser_line(r) for r in recs])
-    for r, s in zip(recs, sers):
+    specs = vlib.run_model(["spec.pes" + ser_line(r)[len("ser.pes"):] for r in recs])
+    for r, s, sp in zip(recs, sers, specs):
         b = unhx(s)
         if b != ser_py(r):
-            raise RuntimeError("Coq serialiser and Python serialiser disagree on %r: %s vs %s" % (r, s, hx(ser_py(r))))
+            print("ERROR C11 generator: Coq serialiser and Python serialiser disagree on %r: %s vs %s" % (r, s, hx(ser_py(r))))
+            sys.exit(2)
         r["ser"] = b
+        # required getters: from the Coq-extracted Spec (spec.pes); the Python copy is only a cross-check
+        r["view"] = proj_view(parse_val(sp))
+        if r["view"] != expected_view(r):
+            print("ERROR C11 generator: Spec/PesSpec.v and the Python expectation disagree on %r: %r vs %r" % (r, r["view"], expected_view(r)))
+            sys.exit(2)
     # 1. NewPESHeader on every well-formed start
     for r in recs:
         line = "pes.new " + hx(r["ser"])
-        EXPECT[line] = expected_view(r)
+        EXPECT[line] = r["view"]
         out.append(Case(line, kind="wf-plain-id" if r["id"] in PLAIN else "wf-mode%d" % r["mode"], theorem="C11_decode_ser", proj=proj_new))
     # 2. the same starts inside transport packets
     step = 7 if tier == "quick" else 1
